@@ -1,6 +1,6 @@
 SPECIFICATION Spec
 CONSTANTS
-  Cases = {0, 1, 2, 3, 4, 5}
+  Cases = {0, 1, 2, 3, 4, 5, 6, 7}
   MaxWorkers = 4
   MaxCrash = 3
   MaxInc = 4
